@@ -156,6 +156,7 @@ class Program:
         self.classes = {}
         self.parents = {}  # id(node) -> parent node, filled lazily per module
         self._parented = set()
+        self.touched = set()  # anchors a rule asked for (reported in evidence)
         self._load()
         self._index()
 
@@ -373,12 +374,14 @@ class Program:
         qn = short if short.startswith(PKG + ".") else PKG + "." + short
         if qn not in self.funcs:
             raise AnchorError("anchor function %s not found" % qn)
+        self.touched.add(qn)
         return self.funcs[qn]
 
     def cls(self, short):
         qn = short if short.startswith(PKG + ".") else PKG + "." + short
         if qn not in self.classes:
             raise AnchorError("anchor class %s not found" % qn)
+        self.touched.add(qn)
         return self.classes[qn]
 
     def module(self, short):
